@@ -208,8 +208,8 @@ SUBS = {
 
 def plan(tier):
     specs = []
-    n_hyp = 10 if tier == "quick" else 12
-    per = 4000 if tier == "quick" else 60000
+    n_hyp = 10 if tier == "quick" else 10
+    per = 4000 if tier == "quick" else 40000
     for _ in range(n_hyp):
         specs.append({"sub": "index", "kind": "hyp", "examples": per})
     maxlen = 6 if tier == "quick" else 8
